@@ -9,7 +9,8 @@ from . import base_scn, compose
 pid = 'C14'
 gen_modules = ['tr_state', 'tr_validators', 'tr_has_patcher', 'tr_contracts', 'tr_decorators', 'tr_pin_contracts', 'tr_attach', 'tr_extractor', 'tr_pin_introspect', 'tr_rest_validators', 'tr_rest_patcher', 'tr_rest_state', 'tr_rest_contractsconst', 'tr_rest_records', 'tr_pin_invariant', 'tr_invariant']
 model_targets = ['Sem/ScnObj.v']
-hand_modelled = ['coq/Sem/ObjModel.v: get_contracts / unwrap over the heap of function objects (hand-written; source pinned)',
+hand_modelled = ['coq/Sem/ObjModel.v: get_contracts / unwrap over the heap of function objects (specification; proved equal to the statements regenerated '
+                 'into Gen/Extractor.v, Thm/C14/ExtractRefine.v; instruction semantics coq/Sem/ExtractCode.v hand-written)',
                  'record.validate / init_all: checked on the implementation only']
 explanation = ('Theorems on the object-graph model: get_contracts yields exactly one record per applied contract, unwrap returns the original, a registry is reported '
                'once. Correspondence + monitor over random compositions with introspection queries; validate/init_all probes on the implementation.')
